@@ -1347,6 +1347,21 @@ def declare_rules(ck):
             "chart's fields), bound to the tokens the chart's parser parses and pushed through the constructor the parser calls, give back "
             "every field they were computed from (e.g. Circle: d_L = -a, d_R = d_L + 2*pi/b against a = -d_L, b = 2*pi/(d_R - d_L)); a "
             "violation comes with a numeric counterexample (input class: a Circle with a reversed parameter domain)", 9)
+    ck.rule("E2.stored-index-bounded",
+            "sibling agreement of the content() callbacks that store a parsed unsigned integer into an index container (a cell of an index set / "
+            "target set / raw index array, or a local handed to an insert of a member container): on every path from the successful parse to the "
+            "acceptance of the line the value has been compared with an upper bound in the strict form (value < B holds; `value > B` rejected "
+            "alone leaves value == B).  A comparison that some paths skip (`if(!sizes.empty() && v >= sizes.at(d))`) is accepted only with a "
+            "deferred route: the container tested by the skip condition is followed to the callback of the owning parser that fills it, and "
+            "every normal path of that callback either fills it or registers a task with a helper object of the reader whose task list is "
+            "consumed by a method that can reject; a route the rule cannot follow answers incomplete (input class: <Mapping dim=\"0\"> "
+            "with index 3 of 3 vertices - deduct_topology writes out of bounds)", 4)
+    ck.rule("E7.deduct-precondition",
+            "MeshPart::deduct_topology(parent topology) is called by the reader only after a check that relates the part's target sets to that "
+            "topology: the call is dominated by the true-branch of a bool call (or by a call of a helper that can throw) whose arguments "
+            "contain both the mesh part (or its target set holder) and the topology handed to deduct_topology - fill_ish looks every vertex of "
+            "a mapped edge/face/cell up in the inverse vertex map, which is defined only for vertices in the vertex target set (input class: "
+            "a mesh part with topology=\"parent\" that lists an edge but not both of its vertices)", 1)
     ck.rule("E1.deferred-roles",
             "a value a parser callback hands to a task helper of the reader (MeshNodeLinker::meshpart_link_to_chart(part, chart)) arrives in the "
             "role it was read in: the argument that carries attribute K (name= of <MeshPart> -> the mesh part, chart= -> the chart) is followed "
@@ -1478,6 +1493,8 @@ def run(tier):
     rule_attr_formula_roundtrip(ck, W, pcs, facts)
     rule_callee_precondition(ck, W, facts)
     rule_deferred_roles(ck, W, pcs, facts)
+    rule_stored_index_bounded(ck, W, pcs, facts)
+    rule_deduct_precondition(ck, W, facts)
     rule_parse_sign(ck, W, facts)
     rule_attr_value_used(ck, W, pcs, facts)
     rule_carrier_transfer(ck, W, facts)
@@ -2643,6 +2660,26 @@ EXTENT_OF = [
 ]
 
 
+def iteration_below(f, it, S, fs):
+    """`it` is the iteration number lib/norm_c11.py gave a range-for loop (a cursor `++p` at the end of its body was rewritten to
+    p0[.. + it]): it < S holds if the traversed container is not resized in the body and its size() is known to equal S"""
+    it = strip(it)
+    if it is None or it.get("k") != "Ref" or not str(it.get("n", "")).startswith("$it"):
+        return False
+    for lp in f.nodes():
+        if lp.get("k") == "ForRange" and (lp.get("_iter") or {}).get("n") == it["n"]:
+            R = norm(lp.get("range"))
+            rv = root_var(lp.get("range"))
+            for x in walk(lp.get("body")):
+                if x.get("k") == "MCall" and root_var(x.get("obj")) == rv and not x.get("cconst") and x.get("n") not in ("at", "operator[]", "front", "back", "begin", "end", "size", "empty"):
+                    return False
+                if x.get("k") in ("Assign",) and root_var(x.get("lhs")) == rv and strip(x["lhs"]).get("k") == "Ref":
+                    return False
+            sz = R + ".size()"
+            return bool(find_fact(fs, "==", A=sz, B=S, truth=True) or find_fact(fs, "==", A=S, B=sz, truth=True))
+    return False
+
+
 def rule_counter_extent(ck, W, pcs, facts, limits):
     cfs_all = class_functions(facts)
     seen = {}
@@ -2701,7 +2738,7 @@ def rule_counter_extent(ck, W, pcs, facts, limits):
                     if C in ops:
                         S = ops[1 - ops.index(C)]
                         fs = W.ecfg(nfn).facts_at(n) or set()
-                        stride_form = bool(find_fact(fs, "<", A=norm(idx["rhs"]), B=S, truth=True))
+                        stride_form = bool(find_fact(fs, "<", A=norm(idx["rhs"]), B=S, truth=True)) or iteration_below(nfn, idx["rhs"], S, fs)
                 exps = []
                 for g, rhs in field_assignments(cfs, fld):
                     if not (rhs.get("k") == "MCall" and rhs.get("n") == "get_indices"):
@@ -4102,8 +4139,8 @@ def rule_dim_binding(ck, W, facts):
 
             def own_helpers(call, f=f):
                 g = W.fns.get(call.get("cfull"))
-                if g is None or g is f or g.cls != f.cls or g.name == f.name:
-                    return []
+                if g is None or g is f or g.name == f.name or (g.cls != f.cls and (g.cls or not re.search(r"mesh_file_writer\.hpp$", g.file or ""))):
+                    return []          # (helpers of the same class, and free helper functions of the writer header: `write_target_set(os, set, dim, ..)`)
                 if any(x.get("k") == "MCall" and x.get("n") in SET_ACCESSORS for x in g.nodes()):
                     return []
                 return [g]
@@ -4608,8 +4645,22 @@ def parse_bindings(W, f, cfs):
                     idx = cnt - 1 if cnt else None
                 else:
                     idx = _int_lit(o["a"][0]) if o.get("a") else None
+        elif o is not None and o.get("k") == "OpCall" and o.get("op") == "[]" and len(o.get("a", [])) == 2 and strip(o["a"][0]) is not None \
+                and strip(o["a"][0]).get("k") == "Ref":
+            # tokens[1] on the deque of tokens
+            li = local_init(f, strip(o["a"][0])["n"])
+            if li is not None and li.get("k") == "MCall" and li.get("callee") in SPLITS:
+                K = trace_attr(f, li.get("obj"))
+                idx = _int_lit(o["a"][1])
+            else:
+                K = None
         elif K is not None:
-            idx = 0
+            r_ = root_var(m.get("obj"))
+            li = local_init(f, r_) if r_ else None
+            if li is not None and li.get("k") == "MCall" and li.get("callee") in SPLITS:
+                K = None          # a token of a split attribute selected in a form that is not modelled: no binding rather than a wrong one
+            else:
+                idx = 0
         if K is not None and idx is not None:
             out[tgt["n"]] = (K, idx)
     return out
@@ -4943,6 +4994,336 @@ def rule_deferred_roles(ck, W, pcs, facts):
             else:
                 rec["unk"].append("parameter `%s` of %s() has no typed consumer and its name does not tell its role" % (m.params[i].get("n"), m.name))
     for key, rec in sorted(res.items()):
+        if rec["probs"]:
+            ck.ob(rule, key, False, "; ".join(sorted(set(rec["probs"]))[:2]), rec["fn"].file, rec["line"])
+        elif rec["unk"]:
+            undecided(ck, rule, key, "; ".join(sorted(set(rec["unk"]))[:2]))
+        else:
+            ck.ob(rule, key, True, "; ".join(sorted(set(rec["ok"]))[:2]), rec["fn"].file, rec["line"])
+
+
+def _container_cell(f, x, depth=0):
+    """root container name if x is a cell of an array / index container (through reference locals), else None"""
+    x = strip(x)
+    if x is None or depth > 4:
+        return None
+    if x.get("k") == "Ref" and x.get("dk") == "local":
+        li = local_init(f, x["n"])
+        if li is None or not re.search(r"&", f.type(next((v.get("t") for v in f.nodes() if v.get("k") == "Var" and v.get("n") == x["n"]), None)) or ""):
+            return None
+        return _container_cell(f, li, depth + 1)
+    if x.get("k") == "Index":
+        return root_var(x["b"]) or _container_cell(f, x["b"], depth + 1)
+    if x.get("k") == "OpCall" and x.get("op") == "[]" and x.get("a"):
+        return _container_cell(f, x["a"][0], depth + 1) or root_var(x["a"][0])
+    if x.get("k") == "MCall" and x.get("n") in ("at", "operator()", "operator[]"):
+        return root_var(x.get("obj"))
+    return None
+
+
+def rule_stored_index_bounded(ck, W, pcs, facts):
+    rule = "E2.stored-index-bounded"
+    cfs_all = class_functions(facts)
+    seen = {}
+
+    def rec_for(key, f, line):
+        return seen.setdefault(key, {"probs": [], "unk": [], "ok": [], "fn": f, "line": line})
+
+    def deferred_route(f, cfs, skip_vars):
+        """('ok', text) / ('bad', text) / ('?', text) for a bound that is skipped when a member container is empty"""
+        flds = sorted(v[1:] for v in skip_vars if v.startswith("@"))
+        if len(flds) != 1:
+            return "?", "the condition under which the comparison is skipped does not test one member container (%s)" % flds
+        fld = flds[0]
+        # the member is bound by the constructor from a parameter; find the construction site in another parser class
+        ctors = [g for g in cfs if g.name == short(f.cls) or g.d.get("ctor")]
+        ppos = None
+        for g in ctors:
+            for i_ in (g.d.get("inits") or []):
+                if (i_.get("member") or "").rsplit("::", 1)[-1] == fld and i_.get("init") is not None:
+                    r_ = strip(i_["init"])
+                    if r_ is not None and r_.get("k") == "Ref" and r_.get("dk") == "param":
+                        ppos = [p_.get("n") for p_ in g.params].index(r_["n"]) if r_["n"] in [p_.get("n") for p_ in g.params] else None
+        if ppos is None:
+            return "?", "member %s is not bound from a constructor parameter" % fld
+        owner = src = None
+        for g in facts.functions:
+            if g.tk == "pattern" or g.body is None or g.cls not in PARSER_CLS or g.cls == f.cls:
+                continue
+            for site, ccls, args, _ct in constructions(g, cfs_all):
+                if strip_targs(ccls) == strip_targs(f.cls) and len(args) > ppos and is_this_field(args[ppos]):
+                    owner, src = g, strip(args[ppos])["n"]
+        if owner is None:
+            # the member holds an object handed over as an expression (`_root_node.get_mesh()`), and the comparison is skipped while it is null
+            for g in facts.functions:
+                if g.tk == "pattern" or g.body is None or g.cls not in PARSER_CLS or g.cls == f.cls:
+                    continue
+                for site, ccls, args, _ct in constructions(g, cfs_all):
+                    if strip_targs(ccls) == strip_targs(f.cls) and len(args) > ppos:
+                        owner, src = g, norm(args[ppos])
+            if owner is None:
+                return "?", "no construction of %s found that binds %s" % (short(f.cls), fld)
+            E = src
+            for g in cfs_all.get(owner.cls, []):
+                if g.cfg is None:
+                    continue
+                regs = [x for x in g.nodes() if x.get("k") == "MCall" and x.get("ccls") and x["ccls"] not in PARSER_CLS and x["ccls"].startswith("FEAT::Geometry::")
+                        and re.search(r"mesh_file_reader", x.get("cfile") or "") and x.get("obj") is not None and is_this_field(x["obj"])
+                        and any(fa[0] == "==" and fa[1] == E and fa[2] == "nullptr" and fa[3] for fa in (W.ecfg(g).facts_at(x) or ()))]
+                if not regs:
+                    continue
+                eg = W.ecfg(g)
+                cut = {(b, s_) for b in eg.el for s_ in eg.succ.get(b, []) if s_ is not None
+                       and any(fa[0] == "==" and fa[1] == E and fa[2] == "nullptr" and not fa[3] for fa in eg.edge_facts(b, s_))}
+                avoid = {eg.where(x)[0] for x in regs if eg.where(x) is not None}
+                if eg.exit in eg.reachable(cut_edges=cut, avoid=avoid | set(eg.throws)):
+                    return "bad", "the comparison is skipped while %s is null, and %s::%s has a path on which %s is null and no deferred check is registered" % (fld, short(owner.cls), g.name, E)
+                return "ok", "skipped only while %s is null; %s::%s then registers %s" % (fld, short(owner.cls), g.name, ", ".join(sorted({x.get("n") for x in regs})))
+            return "bad", "the comparison is skipped while %s (= %s) is null, and no callback of %s registers a deferred check for that case" % (fld, E, short(owner.cls))
+        fillers = []
+        for g in cfs_all.get(owner.cls, []):
+            if g.cfg is None:
+                continue
+            ids = {x["i"] for x in g.nodes() if x.get("k") == "MCall" and x.get("n") in ("push_back", "emplace_back", "resize", "assign", "insert") and is_this_field(x.get("obj"))
+                   and strip(x["obj"])["n"] == src and "i" in x}
+            ids |= {x["i"] for x in g.nodes() if _assign_parts(x)[0] is not None and is_this_field(_assign_parts(x)[0]) and strip(_assign_parts(x)[0])["n"] == src and "i" in x}
+            if ids:
+                # a counted loop around the fill whose first iteration is certain (`for(int i(0); i <= dim; ++i)`) fills on every path through it
+                for lp in g.nodes():
+                    if lp.get("k") == "For" and lp.get("body") is not None and any(x.get("i") in ids for x in walk(lp["body"])):
+                        init, c = lp.get("init"), lp.get("c")
+                        if init is not None and init.get("k") == "Decl" and len(init.get("vars", [])) == 1 and init["vars"][0].get("init") is not None and c is not None:
+                            try:
+                                v0 = evalnode(init["vars"][0]["init"], {})
+                                if evalnode(c, {init["vars"][0]["n"]: v0}):
+                                    ids |= {x["i"] for x in walk(init) if "i" in x}
+                            except Unknown:
+                                pass
+                fillers.append((g, ids))
+        if not fillers:
+            return "?", "no callback of %s fills %s" % (short(owner.cls), src)
+        for g, ids in fillers:
+            regs = {}
+            for x in g.nodes():
+                if x.get("k") == "MCall" and x.get("ccls") and x["ccls"] not in PARSER_CLS and x["ccls"].startswith("FEAT::Geometry::") and re.search(r"mesh_file_reader", x.get("cfile") or "") \
+                   and x.get("obj") is not None and is_this_field(x["obj"]) and "i" in x:
+                    regs[x["i"]] = x
+            ok, bad = g.cfg.must_pass(lambda n, ids=ids, regs=regs: n.get("i") in ids or n.get("i") in regs)
+            if not ok:
+                pth = g.cfg.path_to(bad[0], avoid={b for b in g.cfg.blocks if any(i in ids or i in regs for i in g.cfg.blocks[b]["el"])}) or []
+                lines = [l for l in g.cfg.block_lines(pth) if l]
+                return "bad", ("the comparison is skipped while %s is empty, and %s::%s has a path (lines %s) that neither fills %s nor registers a deferred check" % (
+                    fld, short(owner.cls), g.name, lines[-4:], src))
+            # the registered task is consumed by a method that can reject
+            for x in regs.values():
+                m = W.resolve(x, g)
+                if m is None or m.body is None:
+                    return "?", "the registration %s() is not resolved" % x.get("n")
+                stores = [y for y in m.nodes() if y.get("k") == "MCall" and y.get("n") in STORE_CALLS and is_this_field(y.get("obj"))]
+                if not stores:
+                    return "?", "%s() does not store a task" % m.name
+                F = strip(stores[0]["obj"])["n"]
+                consumers = [h for h in cfs_all.get(m.cls, []) if h is not m and h.body is not None
+                             and any(y.get("k") == "MCall" and y.get("n") in ("front", "back", "pop_front", "pop_back", "begin", "at") and is_this_field(y.get("obj")) and strip(y["obj"])["n"] == F for y in h.nodes())
+                             and any(y.get("k") == "Throw" for y in h.nodes())]
+                if not consumers:
+                    return "bad", "the tasks %s() registers in %s are never taken out by a method that can reject" % (m.name, F)
+            return "ok", "skipped only while %s is empty; %s::%s then registers %s" % (fld, short(owner.cls), g.name, ", ".join(sorted({x.get("n") for x in regs.values()})))
+        return "?", "route not followed"
+
+    for f in reader_functions(facts):
+        if f.cls not in PARSER_CLS:
+            continue
+        cfs = cfs_all.get(f.cls, [f])
+        if f.name != "content" and not any(g.name == "content" and g.body is not None for g in cfs):
+            continue          # (content() itself, or a helper of a class with a content() callback the parse loop was moved into)
+        e = None
+        for n in f.nodes():
+            if not (n.get("k") == "MCall" and n.get("callee") == "FEAT::String::parse" and n.get("a")):
+                continue
+            tgt = n["a"][0]
+            if int_kind(f.ntype(strip(tgt))) != "u":
+                continue
+            cell = _container_cell(f, tgt)
+            t_ = strip(tgt)
+            handed = None
+            if cell is None and t_.get("k") == "Ref" and t_.get("dk") == "local":
+                for c_ in f.nodes():
+                    if c_.get("k") == "MCall" and c_.get("obj") is not None and is_this_field(c_["obj"]) and re.search(r"insert|push|emplace|add", c_.get("n") or "") \
+                       and any(strip(a_) is not None and strip(a_).get("k") == "Ref" and strip(a_).get("n") == t_["n"] for a_ in c_.get("a", [])):
+                        handed = strip(c_["obj"])["n"]
+            if cell is None and handed is None:
+                continue
+            key = "%s::content/%s" % (short(f.cls), cell or handed)
+            rec = rec_for(key, f, n.get("l"))
+            e = e or W.ecfg(f)
+            cb = call_branch(e, n)
+            if cb is None:
+                rec["ok"].append("(result of the parse not branched on: E7.parse-result-used)")
+                continue
+            b, succ_ok = cb[0], cb[1]
+            V = norm(tgt)
+            strict, weak = set(), set()
+            for bb in e.el:
+                for s_ in e.succ.get(bb, []):
+                    if s_ is None:
+                        continue
+                    for fa in e.edge_facts(bb, s_):
+                        if fa[0] == "<" and fa[1] == V and fa[3]:
+                            strict.add(fa[2])
+                        elif fa[0] == "<" and fa[2] == V and not fa[3]:
+                            weak.add(fa[1])
+            for hc in f.nodes():
+                if hc.get("k") == "MCall" and (hc.get("obj") is None or strip(hc["obj"]).get("k") == "This"):
+                    for fa in W.param_summary(hc, f):
+                        if fa[0] == "<" and fa[1] == V and fa[3]:
+                            strict.add(fa[2])      # `_require_in_bounds(value, ..)`: holds when the helper returns
+            done = False
+            if not strict:
+                # the comparison may live in a private helper called after the parse (`_require_in_bounds(iline, sline)`)
+                for hc in f.nodes():
+                    if not (hc.get("k") == "MCall" and (hc.get("obj") is None or strip(hc["obj"]).get("k") == "This")):
+                        continue
+                    h = W.resolve(hc, f)
+                    if h is None or h.cfg is None or h is f or h.cls != f.cls or ("@" + (root_var(tgt) or "?")) not in {v for x in h.nodes() for v in vars_of(x)} or not is_this_field(strip(tgt).get("b") if strip(tgt).get("k") == "Index" else tgt):
+                        continue
+                    eh = W.ecfg(h)
+                    hs = {fa[2] for bb in eh.el for s_ in eh.succ.get(bb, []) if s_ is not None for fa in eh.edge_facts(bb, s_) if fa[0] == "<" and fa[1] == V and fa[3]}
+                    if not hs:
+                        continue
+                    wh = e.where(hc)
+                    if wh is None or e.exit in e.reachable(succ_ok, avoid={wh[0]} | set(e.throws)) and wh[0] != succ_ok:
+                        continue          # (the helper is not called on every accepting path)
+                    B = sorted(hs)[0]
+                    exits_ok = all(find_fact(eh.facts_at_end(xb, eh.exit) or set(), "<", A=V, B=B, truth=True) for xb in eh.normal_exits())
+                    if exits_ok:
+                        rec["ok"].append("%s < %s when %s() returns" % (V, B, h.name))
+                        done = True
+                        break
+                    sv = set()
+                    for bb in eh.el:
+                        br = eh.branch(bb)
+                        if br is not None and V not in [x for fa in atom_facts(br[0], True) for x in (fa[1], fa[2])]:
+                            sv |= {v for v in vars_of(br[0]) if v.startswith("@")}
+                    st, txt = deferred_route(f, cfs, sv) if sv else ("?", "the condition under which %s() returns without the comparison was not recognised" % h.name)
+                    if st == "ok":
+                        rec["ok"].append("%s < %s in %s(), %s" % (V, B, h.name, txt))
+                    elif st == "bad":
+                        rec["probs"].append("the parsed index `%s` is compared with %s only conditionally (in %s()): %s" % (V, B, h.name, txt))
+                    else:
+                        rec["unk"].append("`%s` is compared with %s in %s() only conditionally and the deferred route was not followed: %s" % (V, B, h.name, txt))
+                    done = True
+                    break
+            if done:
+                continue
+            for B in sorted(strict):
+                bad = passes_check(e, succ_ok, ("<", V, B, True), b)
+                if not bad:
+                    rec["ok"].append("%s < %s on every accepting path" % (V, B))
+                    done = True
+                    break
+            if done:
+                continue
+            if strict:
+                # the comparison exists but some path goes round it: which condition lets it?
+                B = sorted(strict)[0]
+                skip_vars = set()
+                for bb in e.el:
+                    br = e.branch(bb)
+                    if br is None:
+                        continue
+                    leafs = [fa for s_ in e.succ.get(bb, []) if s_ is not None for fa in e.edge_facts(bb, s_)]
+                    if any(fa[0] == "<" and fa[1] == V and fa[2] == B for fa in leafs):
+                        # the block(s) that decide whether this comparison is evaluated: `A && (V >= B)` -> predecessor branch on A
+                        for pb in e.pred.get(bb, []):
+                            pbr = e.branch(pb)
+                            if pbr is not None and e.cfg.blocks[pb].get("term") in ("BinaryOperator", "IfStmt"):
+                                skip_vars |= {v for v in vars_of(pbr[0]) if v.startswith("@")}
+                if not skip_vars:
+                    rec["unk"].append("`%s` is compared with %s, but not on every accepting path, and the condition that skips the comparison was not recognised" % (V, B))
+                    continue
+                st, txt = deferred_route(f, cfs, skip_vars)
+                if st == "ok":
+                    rec["ok"].append("%s < %s, %s" % (V, B, txt))
+                elif st == "bad":
+                    rec["probs"].append("the parsed index `%s` is compared with %s only conditionally: %s" % (V, B, txt))
+                else:
+                    rec["unk"].append("`%s` is compared with %s only conditionally and the deferred route was not followed: %s" % (V, B, txt))
+                continue
+            if weak:
+                B = sorted(weak)[0]
+                rec["probs"].append("only `%s > %s` is rejected: `%s == %s` (one past the last entity) is stored in %s" % (V, B, V, B, cell or handed))
+                continue
+            oth = suspects(W, e, None, vars_of(tgt), anywhere=True)
+            if oth:
+                rec["unk"].append("`%s` is not seen compared with an upper bound, but %s may enforce one" % (V, oth))
+                continue
+            rec["probs"].append("the parsed index `%s` is stored in %s and the line is accepted without any comparison with an upper bound (the sibling parsers reject "
+                                "\"Index out of bounds\"): whatever later indexes with it reads or writes out of range" % (V, cell or handed))
+    for key, rec in sorted(seen.items()):
+        if rec["probs"]:
+            ck.ob(rule, key, False, "; ".join(sorted(set(rec["probs"]))[:2]), rec["fn"].file, rec["line"])
+        elif rec["unk"]:
+            undecided(ck, rule, key, "; ".join(sorted(set(rec["unk"]))[:2]))
+        else:
+            ck.ob(rule, key, True, "; ".join(sorted(set(rec["ok"]))[:2]), rec["fn"].file, rec["line"])
+
+
+def rule_deduct_precondition(ck, W, facts):
+    rule = "E7.deduct-precondition"
+    seen = {}
+    for f in facts.functions:
+        if f.tk == "pattern" or f.cfg is None or not re.search(r"mesh_file_reader\.hpp$", f.file or ""):
+            continue
+        for n in f.nodes():
+            if not (n.get("k") == "MCall" and n.get("n") == "deduct_topology" and re.match(r"FEAT::Geometry::MeshPart<", n.get("ccls") or "") and len(n.get("a", [])) == 1):
+                continue
+            key = "%s::%s/deduct_topology" % (short(f.cls or "?"), f.name)
+            rec = seen.setdefault(key, {"probs": [], "unk": [], "ok": [], "fn": f, "line": n.get("l")})
+            part = root_var(n.get("obj"))
+            topo = norm(n["a"][0])
+            topo_alt = norm(strip(n["a"][0])["e"]) if strip(n["a"][0]).get("k") == "Un" and strip(n["a"][0]).get("op") == "*" else None
+            e = W.ecfg(f)
+            fs = e.facts_at(n) or set()
+
+            def relates(txt):
+                return part is not None and re.search(r"(?<![A-Za-z0-9_])%s(?![A-Za-z0-9_])" % re.escape(part), txt) and (topo in txt or (topo_alt and topo_alt in txt))
+            hit = [fa for fa in fs if fa[0] == "b" and fa[3] and relates(fa[1])]
+            if hit:
+                rec["ok"].append("dominated by `%s`" % hit[0][1][:90])
+                continue
+            # a helper that throws, called on every path before the call
+            cands = {}
+            for x in f.nodes():
+                if x.get("k") in ("MCall", "Call") and x is not n and "i" in x and relates(norm(x)) and not (x.get("callee") or "").startswith("std::"):
+                    cands[x["i"]] = x
+            w_n = e.where(n)
+            dom = []
+            for i_, x in cands.items():
+                w = e.where(x)
+                if w is None or w_n is None:
+                    continue
+                # x dominates n: n unreachable from the entry when x's block is avoided (or same block, earlier)
+                if (w[0] == w_n[0] and (w[1] or 0) < (w_n[1] or 0)) or (w[0] != w_n[0] and w_n[0] not in e.reachable(avoid={w[0]})):
+                    dom.append(x)
+            verdict = None
+            for x in dom:
+                g = W.resolve(x, f)
+                if g is None or g.body is None:
+                    verdict = verdict or ("?", "%s is called before, but its body is not available" % (x.get("n") or x.get("callee")))
+                elif any(y.get("k") == "Throw" for y in g.nodes()):
+                    verdict = ("ok", "dominated by %s(), which can reject" % g.name)
+                    break
+                else:
+                    verdict = verdict or ("?", "%s() is called before with the part and the topology, but its result is not branched on and it does not throw" % g.name)
+            if verdict and verdict[0] == "ok":
+                rec["ok"].append(verdict[1])
+            elif verdict:
+                rec["unk"].append(verdict[1])
+            else:
+                rec["probs"].append("%s->deduct_topology(%s) (line %s) is reached without any check that relates the target sets of %s to %s: a mapped entity whose vertices "
+                                    "are not all in the vertex target set makes fill_ish store its not-found marker as a vertex index" % (part, topo, n.get("l"), part, topo))
+    for key, rec in sorted(seen.items()):
         if rec["probs"]:
             ck.ob(rule, key, False, "; ".join(sorted(set(rec["probs"]))[:2]), rec["fn"].file, rec["line"])
         elif rec["unk"]:
